@@ -160,6 +160,23 @@ def contract(m: Model, op, recursive=True, full=False):
             if in_scope(p, recursive):
                 R.add(ev("created", True, p))
                 dirmod(parent(p))
+    elif k == "burst":
+        # op = ["burst", existing_parent, [n1, n2, ...], [[level, fname], ...]]: mkdir -p chain immediately followed by
+        # files created inside the new directories (the "nested burst" the library simulates events for)
+        p = op[1]
+        paths = []
+        for n in op[2]:
+            p = p + "/" + n
+            paths.append(p)
+            if in_scope(p, recursive):
+                R.add(ev("created", True, p))
+                dirmod(parent(p))
+        for lvl, fn in op[3]:
+            f = paths[lvl] + "/" + fn
+            if in_scope(f, recursive):
+                R.add(ev("created", False, f))
+                dirmod(paths[lvl])
+                A |= {ev("opened", False, f), ev("closed", False, f)}
     elif k == "rmdir":
         p = op[1]
         if in_scope(p, recursive):
@@ -229,6 +246,15 @@ def apply(m: Model, op):
         for n in op[2]:
             p = p + "/" + n
             m.add(p, "d")
+    elif k == "burst":
+        p = op[1]
+        paths = []
+        for n in op[2]:
+            p = p + "/" + n
+            m.add(p, "d")
+            paths.append(p)
+        for lvl, fn in op[3]:
+            m.add(paths[lvl] + "/" + fn, "f")
     elif k in ("unlink", "rmdir", "rmtree"):
         m.remove(op[1])
     elif k == "rename":
@@ -273,6 +299,13 @@ def valid(m: Model, op, paced=True):
         return m.kind(op[1]) == "f" and is_under(op[1], ROOT) and not untouchable(op[1])
     if k == "mkdir":
         return is_under(op[1], ROOT) and free_name(op[1])
+    if k == "burst":
+        if not valid(m, ["makedirs", op[1], op[2]], paced):
+            return False
+        for lvl, fn in op[3]:
+            if lvl >= len(op[2]) or (lvl + 1 < len(op[2]) and op[2][lvl + 1] == fn):
+                return False
+        return len({(l, f) for l, f in op[3]}) == len(op[3])
     if k == "makedirs":
         p = op[1]
         if m.kind(p) != "d" or not is_under(p, ROOT) or not op[2]:
@@ -335,7 +368,7 @@ def taint_after(m_before: Model, m: Model, op):
     k = op[0]
     if k == "mkdir":
         m.taint(op[1])
-    elif k == "makedirs":
+    elif k in ("makedirs", "burst"):
         p = op[1]
         for n in op[2]:
             p = p + "/" + n
@@ -385,7 +418,7 @@ TREE_SHAPES = [
 
 DEFAULT_WEIGHTS = {
     "mkfile": 3, "write": 2, "chmod": 1, "unlink": 2, "mkdir": 3, "makedirs": 1, "rmdir": 1, "rmtree": 1,
-    "rename": 4, "moveout": 1, "movein_file": 1, "movein_tree": 1, "drain": 3,
+    "rename": 4, "moveout": 1, "movein_file": 1, "movein_tree": 1, "drain": 3, "burst": 1,
 }
 
 
@@ -398,6 +431,7 @@ def gen_ops(rng: random.Random, m: Model, n, names=("a", "b", "c"), max_depth=3,
     wl = [w[k] for k in kinds]
     ops = []
     outn = [0]
+    moved_out_shapes = []
     attempts = 0
     while len(ops) < n and attempts < n * 40:
         attempts += 1
@@ -421,6 +455,17 @@ def gen_ops(rng: random.Random, m: Model, n, names=("a", "b", "c"), max_depth=3,
             if depth_left >= 2:
                 chain = [rng.choice(names) for _ in range(rng.randrange(2, depth_left + 1))]
                 op = [k, d, chain]
+        elif k == "burst":
+            depth_left = max_depth - d.count("/")
+            if depth_left >= 1:
+                chain = [rng.choice(names) for _ in range(rng.randrange(1, depth_left + 1))]
+                files = []
+                for lvl in range(len(chain)):
+                    for fn in names:
+                        if rng.random() < 0.4 and not (lvl + 1 < len(chain) and chain[lvl + 1] == fn):
+                            files.append([lvl, fn])
+                if files:
+                    op = [k, d, chain, files]
         elif k == "rmdir":
             ds = [q for q in m.dirs_in(ROOT) if q != ROOT and not m.children(q)]
             if ds:
@@ -441,7 +486,16 @@ def gen_ops(rng: random.Random, m: Model, n, names=("a", "b", "c"), max_depth=3,
         elif k == "movein_file":
             op = [k, f"s{outn[0]}", p]
         elif k == "movein_tree":
-            op = [k, rng.choice(TREE_SHAPES), p]
+            shape = rng.choice(TREE_SHAPES)
+            r = rng.random()
+            if r < 0.3 and moved_out_shapes:
+                shape = rng.choice(moved_out_shapes)  # a different tree with the names of one that left earlier
+            elif r < 0.5:
+                a, b = rng.choice(names), rng.choice(names)
+                shape = rng.choice([[[a, "d"]], [[a, "d"], [a + "/" + b, "d"]], [[a, "d"], [a + "/" + b, "f"], [b, "f"]], [[a, "f"]]])
+                if shape[-1][0] == shape[0][0] and len(shape) > 1:
+                    shape = shape[:-1]
+            op = [k, shape, p]
         elif k == "drain":
             if ops and ops[-1][0] != "drain":
                 op = ["drain"]
@@ -457,6 +511,10 @@ def gen_ops(rng: random.Random, m: Model, n, names=("a", "b", "c"), max_depth=3,
             continue  # renaming a just-arrived directory is allowed but not the common case
         if op[0] in ("moveout", "movein_file"):
             outn[0] += 1
+        if op[0] == "moveout" and m.kind(op[1]) == "d":
+            sub = [[q[len(op[1]) + 1:], m.kind(q)] for q in m.subtree(op[1])]
+            if sub:
+                moved_out_shapes.append(sub)
         before = Model.__new__(Model)
         before.t = dict(m.t)
         apply(m, op)
